@@ -89,39 +89,540 @@ theorem count_map_tag (l : List CompId) (b b' : Bool) (x : CompId) (o o' : Nat) 
         exact h ⟨hb.symm, ho.symm⟩
       simp [this]
 
-theorem count_nodup {l : List CompId} (hn : l.Nodup) (x : CompId) : l.count x = if x ∈ l then 1 else 0 := by
-  by_cases hx : x ∈ l
-  · rw [if_pos hx]; exact List.count_eq_one_of_mem hn hx
-  · rw [if_neg hx]; exact List.count_eq_zero_of_not_mem hx
+theorem count_nodup {l : List CompId} (hn : l.Nodup) (x : CompId) : l.count x = if x ∈ l then 1 else 0 := hn.count
 
 theorem count_cbDiff_assign (o : Nat) (before after : Mask) (ha : after.Nodup) (x : CompId) (o' : Nat) :
     (cbDiff info o before after).count (true, x, o') =
       if o' = o ∧ x ∈ after ∧ (info x).callbacks = true ∧ x ∉ before then 1 else 0 := by
   unfold cbDiff
-  rw [List.count_append, count_map_tag, count_map_tag]
-  simp only [true_and, Bool.true_eq_false, false_and, if_false, Nat.add_zero]
+  rw [List.count_append, count_map_tag, count_map_tag, count_nodup (ha.sublist List.filter_sublist)]
+  simp only [List.mem_filter, Bool.and_eq_true, Bool.not_eq_true', contains_false_iff]
   by_cases ho : o' = o
-  · simp only [ho, true_and, if_true]
-    rw [count_nodup (ha.sublist List.filter_sublist)]
-    simp only [List.mem_filter, Bool.and_eq_true, Bool.not_eq_true', contains_false_iff]
-    by_cases h : x ∈ after ∧ (info x).callbacks = true ∧ x ∉ before
-    · rw [if_pos h, if_pos ⟨h.1, h.2.1, h.2.2⟩]
-    · rw [if_neg h, if_neg (fun hh => h ⟨hh.1, hh.2.1, hh.2.2⟩)]
+  · by_cases h : x ∈ after ∧ (info x).callbacks = true ∧ x ∉ before
+    · simp [ho, h.1, h.2.1, h.2.2]
+    · have : ¬ (x ∈ after ∧ ((info x).callbacks = true ∧ x ∉ before)) := h
+      simp [ho, h, this]
   · simp [ho]
 
 theorem count_cbDiff_remove (o : Nat) (before after : Mask) (hb : before.Nodup) (x : CompId) (o' : Nat) :
     (cbDiff info o before after).count (false, x, o') =
       if o' = o ∧ x ∈ before ∧ (info x).callbacks = true ∧ x ∉ after then 1 else 0 := by
   unfold cbDiff
-  rw [List.count_append, count_map_tag, count_map_tag]
-  simp only [Bool.false_eq_true, false_and, if_false, Nat.zero_add, true_and]
+  rw [List.count_append, count_map_tag, count_map_tag, count_nodup (hb.sublist List.filter_sublist)]
+  simp only [List.mem_filter, Bool.and_eq_true, Bool.not_eq_true', contains_false_iff]
   by_cases ho : o' = o
-  · simp only [ho, if_true, true_and]
-    rw [count_nodup (hb.sublist List.filter_sublist)]
-    simp only [List.mem_filter, Bool.and_eq_true, Bool.not_eq_true', contains_false_iff]
-    by_cases h : x ∈ before ∧ (info x).callbacks = true ∧ x ∉ after
-    · rw [if_pos h, if_pos ⟨h.1, h.2.1, h.2.2⟩]
-    · rw [if_neg h, if_neg (fun hh => h ⟨hh.1, hh.2.1, hh.2.2⟩)]
+  · by_cases h : x ∈ before ∧ (info x).callbacks = true ∧ x ∉ after
+    · simp [ho, h.1, h.2.1, h.2.2]
+    · have : ¬ (x ∈ before ∧ ((info x).callbacks = true ∧ x ∉ after)) := h
+      simp [ho, h, this]
   · simp [ho]
+
+/-! ## lookups in keyed lists -/
+
+theorem find_map_key (l : List CompId) (f : CompId → Val) (y : CompId) :
+    (l.map (fun x => (x, f x))).find? (·.1 == y) = if y ∈ l then some (y, f y) else none := by
+  induction l with
+  | nil => rfl
+  | cons a t ih =>
+    simp only [List.map_cons, List.find?_cons, List.mem_cons]
+    by_cases h : a = y
+    · subst h; simp
+    · have hb : (a == y) = false := by simpa using h
+      have hne : ¬ y = a := fun e => h e.symm
+      simp only [hb, hne, false_or]
+      exact ih
+
+theorem find_filter_append_self (src : List (CompId × Val)) (c : CompId) (v : Val) :
+    (src.filter (·.1 != c) ++ [(c, v)]).find? (·.1 == c) = some (c, v) := by
+  rw [List.find?_append]
+  have : (src.filter (·.1 != c)).find? (·.1 == c) = none := by
+    rw [List.find?_eq_none]
+    intro q hq hqc
+    have := (List.mem_filter.mp hq).2
+    have e : q.1 = c := by simpa using hqc
+    simp [e] at this
+  rw [this]; simp
+
+theorem find_filter_append_ne (src : List (CompId × Val)) (c : CompId) (v : Val) {x : CompId} (hx : x ≠ c) :
+    (src.filter (·.1 != c) ++ [(c, v)]).find? (·.1 == x) = src.find? (·.1 == x) := by
+  rw [List.find?_append]
+  have h1 : (src.filter (·.1 != c)).find? (·.1 == x) = src.find? (·.1 == x) := by
+    induction src with
+    | nil => rfl
+    | cons q t ih =>
+      by_cases hq : q.1 = x
+      · have h1 : (q.1 != c) = true := by rw [hq]; simpa using hx
+        have h2 : (q.1 == x) = true := by simpa using hq
+        simp only [List.filter_cons, h1, if_true, List.find?_cons, h2]
+      · have h2 : (q.1 == x) = false := by simpa using hq
+        by_cases h1 : (q.1 != c) = true
+        · simp only [List.filter_cons, h1, if_true, List.find?_cons, h2]; exact ih
+        · simp only [List.filter_cons, h1, Bool.false_eq_true, if_false, List.find?_cons, h2]; exact ih
+  rw [h1]
+  have h2 : ([(c, v)] : List (CompId × Val)).find? (·.1 == x) = none := by
+    have : (c == x) = false := by simpa using (Ne.symm hx)
+    simp [List.find?_cons, this]
+  rw [h2]; simp
+
+theorem find_filter_ne' (src : List (CompId × Val)) (c : CompId) {x : CompId} (hx : x ≠ c) :
+    (src.filter (·.1 != c)).find? (·.1 == x) = src.find? (·.1 == x) := by
+  induction src with
+  | nil => rfl
+  | cons q t ih =>
+    by_cases hq : q.1 = x
+    · have h1 : (q.1 != c) = true := by rw [hq]; simpa using hx
+      have h2 : (q.1 == x) = true := by simpa using hq
+      simp only [List.filter_cons, h1, if_true, List.find?_cons, h2]
+    · have h2 : (q.1 == x) = false := by simpa using hq
+      by_cases h1 : (q.1 != c) = true
+      · simp only [List.filter_cons, h1, if_true, List.find?_cons, h2]; exact ih
+      · simp only [List.filter_cons, h1, Bool.false_eq_true, if_false, List.find?_cons, h2]; exact ih
+
+/-! ## the invariant -/
+
+structure PInv (deps : List (CompId × Mask)) (ic : List (CompId × Val)) (base : Mask) (k : Nat) (p : PackSt)
+    (ent : SEnt) (scbs : List SCb) : Prop where
+  comps : ent.comps = p.final.map (fun x => (x, pform info ic p x))
+  sorted : MaskOk p.final
+  closedF : ClosedUnder deps p.final
+  srcSub : ∀ q ∈ p.src, q.1 ∈ p.final
+  srcNodup : (p.src.map (·.1)).Nodup
+  gone : ∀ q ∈ ic, q.1 ∉ p.final → q.1 ∈ p.replaced
+  srcRepl : ∀ q ∈ p.src, q.1 ∈ p.replaced ∨ q.1 ∉ ic.map (·.1)
+  net : ∀ x, (info x).callbacks = true →
+    scbs.count (true, x, k) + (if x ∈ base then 1 else 0) = scbs.count (false, x, k) + (if x ∈ p.final then 1 else 0)
+  repl : ∀ x ∈ p.replaced, (info x).callbacks = true → 1 ≤ scbs.count (false, x, k)
+  nocb : ∀ b x o, (info x).callbacks = false → scbs.count (b, x, o) = 0
+  other : ∀ b x o, o ≠ k → scbs.count (b, x, o) = 0
+  alive : p.dead = false
+
+/-- the spec state changes at ordinal `k` only -/
+structure FrameK (S S' : WS) (k : Nat) : Prop where
+  len : S'.ents.length = S.ents.length
+  others : ∀ o, o ≠ k → S'.alive o = S.alive o
+  deps : S'.deps = S.deps
+  lockDepth : S'.lockDepth = S.lockDepth
+  nthreads : S'.nthreads = S.nthreads
+  buffers : S'.buffers = S.buffers
+
+theorem FrameK.refl (S : WS) (k : Nat) : FrameK S S k := ⟨rfl, fun _ _ => rfl, rfl, rfl, rfl, rfl⟩
+
+theorem FrameK.trans {A B C : WS} {k : Nat} (h₁ : FrameK A B k) (h₂ : FrameK B C k) : FrameK A C k :=
+  ⟨h₂.len.trans h₁.len, fun o ho => (h₂.others o ho).trans (h₁.others o ho), h₂.deps.trans h₁.deps,
+   h₂.lockDepth.trans h₁.lockDepth, h₂.nthreads.trans h₁.nthreads, h₂.buffers.trans h₁.buffers⟩
+
+theorem frameK_setEnt (S : WS) (k : Nat) (x : Option SEnt) : FrameK S (S.setEnt k x) k :=
+  ⟨by simp [WS.setEnt], fun o ho => by
+      rw [setEnt_alive]
+      have : ¬ (o = k ∧ k < S.ents.length) := fun h => ho h.1
+      rw [if_neg this], rfl, rfl, rfl, rfl⟩
+
+theorem setEnt_alive_self (S : WS) {k : Nat} (hk : k < S.ents.length) (x : Option SEnt) : (S.setEnt k x).alive k = x := by
+  rw [setEnt_alive, if_pos ⟨rfl, hk⟩]
+
+theorem PInv.compSet {deps : List (CompId × Mask)} {ic : List (CompId × Val)} {base : Mask} {k : Nat} {p : PackSt}
+    {ent : SEnt} {scbs : List SCb} (h : PInv info deps ic base k p ent scbs) : compSet ent = p.final := by
+  unfold Mustache.Spec.compSet
+  rw [h.comps, List.map_map]
+  exact List.map_id' _
+
+theorem pform_assign_self (ic : List (CompId × Val)) (p p' : PackSt) (c : CompId) (v : Val)
+    (hs : p'.src = p.src.filter (·.1 != c) ++ [(c, v)]) : pform info ic p' c = v := by
+  unfold pform
+  rw [hs, find_filter_append_self]
+
+theorem pform_assign_ne (ic : List (CompId × Val)) (p p' : PackSt) (c : CompId) (v : Val) {x : CompId} (hx : x ≠ c)
+    (hs : p'.src = p.src.filter (·.1 != c) ++ [(c, v)])
+    (hr : p'.replaced.contains x = p.replaced.contains x) : pform info ic p' x = pform info ic p x := by
+  unfold pform
+  rw [hs, find_filter_append_ne _ _ _ hx, hr]
+
+theorem contains_insert_ne (m : Mask) (c : CompId) {x : CompId} (hx : x ≠ c) :
+    (Mask.insert m c).contains x = m.contains x := by
+  rw [Bool.eq_iff_iff]
+  simp only [List.contains_iff_mem, mem_insert]
+  exact ⟨fun h => h.resolve_left hx, Or.inr⟩
+
+theorem count_append_pair (scbs : List SCb) (cb : Bool) (c : CompId) (k : Nat) (t : SCb) :
+    (scbs ++ (if cb then [(false, c, k), (true, c, k)] else [])).count t =
+      scbs.count t + (if cb ∧ t = (false, c, k) then 1 else 0) + (if cb ∧ t = (true, c, k) then 1 else 0) := by
+  rw [List.count_append]
+  cases cb with
+  | false => simp
+  | true =>
+    simp only [if_true, true_and, List.count_cons, List.count_nil, Nat.zero_add]
+    have e1 : ((false, c, k) == t) = decide (t = (false, c, k)) := by
+      by_cases h : t = (false, c, k)
+      · simp [h]
+      · have : ¬ ((false, c, k) = t) := fun e => h e.symm
+        simp [h, this]
+    have e2 : ((true, c, k) == t) = decide (t = (true, c, k)) := by
+      by_cases h : t = (true, c, k)
+      · simp [h]
+      · have : ¬ ((true, c, k) = t) := fun e => h e.symm
+        simp [h, this]
+    rw [e1, e2]
+    by_cases h1 : t = (false, c, k) <;> by_cases h2 : t = (true, c, k) <;> simp [h1, h2]
+
+/-- a deferred `assign` -/
+theorem pinv_assign {deps : List (CompId × Mask)} {ic : List (CompId × Val)} {base : Mask} {k : Nat} {p : PackSt}
+    {ent : SEnt} {scbs : List SCb} (hp : PInv info deps ic base k p ent scbs) (hdb : DepsBounded deps) (S : WS)
+    (hk : k < S.ents.length) (hal : S.alive k = some ent) (hdeps : S.deps = deps) (e : Handle) (c : CompId) (v : Val) :
+    ∃ ent', (S.doAssign info k c v).1.alive k = some ent' ∧ ent'.shared = ent.shared ∧
+      PInv info deps ic base k (pst deps p (.assign e c v)) ent' (scbs ++ (S.doAssign info k c v).2) ∧
+      FrameK S (S.doAssign info k c v).1 k ∧ (S.doAssign info k c v).1.marked = S.marked := by
+  have hcs := hp.compSet
+  have halive := hp.alive
+  by_cases hc : c ∈ p.final
+  · -- re-assignment of a present component
+    have hcc : p.final.contains c = true := (contains_iff _ _).mpr hc
+    have hpst : pst deps p (.assign e c v) =
+        { p with replaced := Mask.insert p.replaced c, src := p.src.filter (·.1 != c) ++ [(c, v)] } := by
+      simp only [pst, halive, Bool.false_eq_true, if_false, hcc, if_true]
+    have hdo : S.doAssign info k c v =
+        (S.setEnt k (some { ent with comps := ent.comps.map (fun q => if q.1 == c then (c, v) else q) }),
+          if (info c).callbacks then [(false, c, k), (true, c, k)] else []) := by
+      simp only [WS.doAssign, hal, hcs, hcc, if_true]
+    rw [hdo, hpst]
+    refine ⟨_, setEnt_alive_self S hk _, rfl, ?_, frameK_setEnt S k _, rfl⟩
+    refine
+    { comps := ?_, sorted := hp.sorted, closedF := hp.closedF, srcSub := ?_, srcNodup := ?_, gone := ?_, net := ?_
+      repl := ?_, nocb := ?_, other := ?_, alive := halive
+      srcRepl := by
+        intro q hq
+        rcases List.mem_append.mp hq with h | h
+        · rcases hp.srcRepl q (List.mem_filter.mp h).1 with h1 | h1
+          · exact Or.inl ((mem_insert _ _ _).mpr (Or.inr h1))
+          · exact Or.inr h1
+        · simp only [List.mem_singleton] at h
+          rw [h]; exact Or.inl ((mem_insert _ _ _).mpr (Or.inl rfl)) }
+    · show ent.comps.map _ = _
+      rw [hp.comps, List.map_map]
+      apply List.map_congr_left
+      intro x hx
+      by_cases hxc : x = c
+      · subst hxc
+        simp only [Function.comp, beq_self_eq_true, if_true]
+        rw [pform_assign_self info ic p
+          { p with replaced := Mask.insert p.replaced x, src := p.src.filter (·.1 != x) ++ [(x, v)] } x v rfl]
+      · have hb : (x == c) = false := by simpa using hxc
+        simp only [Function.comp, hb, Bool.false_eq_true, if_false]
+        rw [pform_assign_ne info ic p
+          { p with replaced := Mask.insert p.replaced c, src := p.src.filter (·.1 != c) ++ [(c, v)] } c v hxc rfl
+          (contains_insert_ne _ _ hxc)]
+    · intro q hq
+      rcases List.mem_append.mp hq with h | h
+      · exact hp.srcSub q (List.mem_filter.mp h).1
+      · simp only [List.mem_singleton] at h; rw [h]; exact hc
+    · show ((p.src.filter (·.1 != c) ++ [(c, v)]).map (·.1)).Nodup
+      rw [List.map_append, List.nodup_append]
+      refine ⟨(hp.srcNodup.sublist (List.Sublist.map _ List.filter_sublist)), by simp, ?_⟩
+      intro a ha b' hb'
+      simp only [List.map_cons, List.map_nil, List.mem_singleton] at hb'
+      subst hb'
+      rcases List.mem_map.mp ha with ⟨q, hq, rfl⟩
+      have := (List.mem_filter.mp hq).2
+      simpa using this
+    · intro q hq hnf
+      exact (mem_insert _ _ _).mpr (Or.inr (hp.gone q hq hnf))
+    · intro x hx
+      rw [count_append_pair, count_append_pair]
+      have := hp.net x hx
+      by_cases hxc : x = c
+      · subst hxc; simp [hx]; omega
+      · have h1 : ¬ ((true, x, k) = ((false, c, k) : SCb)) := by simp
+        have h2 : ¬ ((true, x, k) = ((true, c, k) : SCb)) := by simp [hxc]
+        have h3 : ¬ ((false, x, k) = ((false, c, k) : SCb)) := by simp [hxc]
+        have h4 : ¬ ((false, x, k) = ((true, c, k) : SCb)) := by simp
+        simp only [h1, h2, h3, h4, and_false, if_false, Nat.add_zero]
+        exact this
+    · intro x hx hcb
+      rw [count_append_pair]
+      rcases (mem_insert _ _ _).mp hx with rfl | h
+      · simp [hcb]
+      · have := hp.repl x h hcb; omega
+    · intro b x o hcb
+      rw [count_append_pair, hp.nocb b x o hcb]
+      by_cases hxc : x = c
+      · subst hxc; simp [hcb]
+      · have h1 : ¬ ((b, x, o) = ((false, c, k) : SCb)) := by simp [hxc]
+        have h2 : ¬ ((b, x, o) = ((true, c, k) : SCb)) := by simp [hxc]
+        simp [h1, h2]
+    · intro b x o ho
+      rw [count_append_pair, hp.other b x o ho]
+      have h1 : ¬ ((b, x, o) = ((false, c, k) : SCb)) := by simp [ho]
+      have h2 : ¬ ((b, x, o) = ((true, c, k) : SCb)) := by simp [ho]
+      simp [h1, h2]
+  · -- a new component
+    have hcc : p.final.contains c = false := contains_false_iff.mpr hc
+    have hfok := hp.sorted
+    have hsubA : ∀ x ∈ p.final, x ∈ closedMask deps (Mask.insert p.final c) :=
+      fun x hx => subset_closedMask ((mem_insert _ _ _).mpr (Or.inr hx))
+    have hcA : c ∈ closedMask deps (Mask.insert p.final c) := subset_closedMask ((mem_insert _ _ _).mpr (Or.inl rfl))
+    have haok : MaskOk (closedMask deps (Mask.insert p.final c)) := maskOk_closedMask deps (maskOk_insert hfok c)
+    have hpst : pst deps p (.assign e c v) =
+        { p with final := closedMask deps (Mask.insert p.final c), src := p.src.filter (·.1 != c) ++ [(c, v)] } := by
+      simp only [pst, halive, Bool.false_eq_true, if_false, hcc]
+    have hdo : S.doAssign info k c v =
+        (S.setEnt k (some { ent with comps := rebuild info ent.comps (closedMask deps (Mask.insert p.final c)) [(c, v)] }),
+          cbDiff info k p.final (closedMask deps (Mask.insert p.final c))) := by
+      simp only [WS.doAssign, hal, hcs, hcc, Bool.false_eq_true, if_false, hdeps]
+      rfl
+    rw [hdo, hpst]
+    refine ⟨_, setEnt_alive_self S hk _, rfl, ?_, frameK_setEnt S k _, rfl⟩
+    refine
+    { comps := ?_, sorted := haok, closedF := closedMask_closed hdb _, srcSub := ?_, srcNodup := ?_, gone := ?_, net := ?_
+      repl := ?_, nocb := ?_, other := ?_, alive := halive
+      srcRepl := by
+        intro q hq
+        rcases List.mem_append.mp hq with h | h
+        · exact hp.srcRepl q (List.mem_filter.mp h).1
+        · simp only [List.mem_singleton] at h
+          rw [h]
+          by_cases hci : c ∈ ic.map (·.1)
+          · rcases List.mem_map.mp hci with ⟨q', hq', hq'c⟩
+            have := hp.gone q' hq' (by rw [hq'c]; exact hc)
+            rw [hq'c] at this
+            exact Or.inl this
+          · exact Or.inr hci }
+    · show rebuild info ent.comps _ [(c, v)] = _
+      rw [rebuild_eq]
+      apply List.map_congr_left
+      intro x hx
+      unfold specPair
+      rw [hp.comps, find_map_key]
+      by_cases hxf : x ∈ p.final
+      · have hxc : x ≠ c := fun e => hc (e ▸ hxf)
+        rw [if_pos hxf]
+        simp only
+        rw [pform_assign_ne info ic p
+          { p with final := closedMask deps (Mask.insert p.final c), src := p.src.filter (·.1 != c) ++ [(c, v)] } c v hxc
+          rfl rfl]
+      · rw [if_neg hxf]
+        simp only
+        by_cases hxc : x = c
+        · subst hxc
+          simp only [List.find?_cons, beq_self_eq_true]
+          rw [pform_assign_self info ic p
+            { p with final := closedMask deps (Mask.insert p.final x), src := p.src.filter (·.1 != x) ++ [(x, v)] } x v rfl]
+        · have hb : (c == x) = false := by simpa using (Ne.symm hxc)
+          simp only [List.find?_cons, hb, List.find?_nil]
+          rw [pform_assign_ne info ic p
+            { p with final := closedMask deps (Mask.insert p.final c), src := p.src.filter (·.1 != c) ++ [(c, v)] } c v hxc
+            rfl rfl]
+          unfold pform
+          have hsn : p.src.find? (·.1 == x) = none := by
+            rw [List.find?_eq_none]
+            intro q hq hqx
+            have : q.1 = x := by simpa using hqx
+            exact hxf (this ▸ hp.srcSub q hq)
+          rw [hsn]
+          simp only
+          cases hf : ic.find? (·.1 == x) with
+          | none => rfl
+          | some q =>
+            simp only
+            have hq1 : q.1 = x := by simpa using List.find?_some hf
+            have := hp.gone q (List.mem_of_find?_eq_some hf) (by rw [hq1]; exact hxf)
+            rw [hq1] at this
+            rw [(contains_iff _ _).mpr this]; rfl
+    · intro q hq
+      rcases List.mem_append.mp hq with h | h
+      · exact hsubA _ (hp.srcSub q (List.mem_filter.mp h).1)
+      · simp only [List.mem_singleton] at h; rw [h]; exact hcA
+    · show ((p.src.filter (·.1 != c) ++ [(c, v)]).map (·.1)).Nodup
+      rw [List.map_append, List.nodup_append]
+      refine ⟨(hp.srcNodup.sublist (List.Sublist.map _ List.filter_sublist)), by simp, ?_⟩
+      intro a ha b' hb'
+      simp only [List.map_cons, List.map_nil, List.mem_singleton] at hb'
+      subst hb'
+      rcases List.mem_map.mp ha with ⟨q, hq, rfl⟩
+      have := (List.mem_filter.mp hq).2
+      simpa using this
+    · intro q hq hnf
+      exact hp.gone q hq (fun h => hnf (hsubA _ h))
+    · intro x hx
+      rw [List.count_append, List.count_append, count_cbDiff_assign info k _ _ (maskOk_nodup haok),
+        count_cbDiff_remove info k _ _ (maskOk_nodup hfok)]
+      have := hp.net x hx
+      have hR : (if k = k ∧ x ∈ p.final ∧ (info x).callbacks = true ∧ x ∉ closedMask deps (Mask.insert p.final c)
+          then 1 else 0) = (0 : Nat) := if_neg (fun h => h.2.2.2 (hsubA x h.2.1))
+      rw [hR]
+      by_cases hxf : x ∈ p.final
+      · have hxa := hsubA x hxf
+        have hA : (if k = k ∧ x ∈ closedMask deps (Mask.insert p.final c) ∧ (info x).callbacks = true ∧ x ∉ p.final
+            then 1 else 0) = (0 : Nat) := if_neg (fun h => h.2.2.2 hxf)
+        rw [hA, if_pos hxa]
+        rw [if_pos hxf] at this
+        omega
+      · by_cases hxa : x ∈ closedMask deps (Mask.insert p.final c)
+        · have hA : (if k = k ∧ x ∈ closedMask deps (Mask.insert p.final c) ∧ (info x).callbacks = true ∧ x ∉ p.final
+              then 1 else 0) = (1 : Nat) := if_pos ⟨rfl, hxa, hx, hxf⟩
+          rw [hA, if_pos hxa]
+          rw [if_neg hxf] at this
+          omega
+        · have hA : (if k = k ∧ x ∈ closedMask deps (Mask.insert p.final c) ∧ (info x).callbacks = true ∧ x ∉ p.final
+              then 1 else 0) = (0 : Nat) := if_neg (fun h => hxa h.2.1)
+          rw [hA, if_neg hxa]
+          rw [if_neg hxf] at this
+          omega
+    · intro x hx hcb
+      rw [List.count_append]
+      have := hp.repl x hx hcb
+      omega
+    · intro b x o hcb
+      rw [List.count_append, hp.nocb b x o hcb]
+      cases b with
+      | true => rw [count_cbDiff_assign info k _ _ (maskOk_nodup haok)]; simp [hcb]
+      | false => rw [count_cbDiff_remove info k _ _ (maskOk_nodup hfok)]; simp [hcb]
+    · intro b x o ho
+      rw [List.count_append, hp.other b x o ho]
+      cases b with
+      | true => rw [count_cbDiff_assign info k _ _ (maskOk_nodup haok)]; simp [ho]
+      | false => rw [count_cbDiff_remove info k _ _ (maskOk_nodup hfok)]; simp [ho]
+
+theorem pform_remove_ne (ic : List (CompId × Val)) (p p' : PackSt) (c : CompId) {x : CompId} (hx : x ≠ c)
+    (hs : p'.src = p.src.filter (·.1 != c)) (hr : p'.replaced.contains x = p.replaced.contains x) :
+    pform info ic p' x = pform info ic p x := by
+  unfold pform
+  rw [hs, find_filter_ne' _ _ hx, hr]
+
+/-- a deferred `removeComponent` -/
+theorem pinv_remove {deps : List (CompId × Mask)} {ic : List (CompId × Val)} {base : Mask} {k : Nat} {p : PackSt}
+    {ent : SEnt} {scbs : List SCb} (hp : PInv info deps ic base k p ent scbs) (hdb : DepsBounded deps) (S : WS)
+    (hk : k < S.ents.length) (hal : S.alive k = some ent) (hdeps : S.deps = deps) (e : Handle) (c : CompId) :
+    ∃ ent', (S.doRemove info k c).1.alive k = some ent' ∧ ent'.shared = ent.shared ∧
+      PInv info deps ic base k (pst deps p (.remove e c)) ent' (scbs ++ (S.doRemove info k c).2) ∧
+      FrameK S (S.doRemove info k c).1 k ∧ (S.doRemove info k c).1.marked = S.marked := by
+  have hcs := hp.compSet
+  have halive := hp.alive
+  have hfok := hp.sorted
+  rcases Classical.em (c ∉ p.final) with hc | hc
+  · have hcc : p.final.contains c = false := contains_false_iff.mpr hc
+    have hpst : pst deps p (.remove e c) = p := by
+      simp only [pst, halive, Bool.false_eq_true, if_false, hcc]
+    have hdo : S.doRemove info k c = (S, []) := by
+      simp only [WS.doRemove, hal, hcs, hcc, Bool.not_false, if_true]
+    rw [hdo, hpst, List.append_nil]
+    exact ⟨ent, hal, rfl, hp, FrameK.refl S k, rfl⟩
+  have hc : c ∈ p.final := Classical.not_not.mp hc
+  have hcc : p.final.contains c = true := (contains_iff _ _).mpr hc
+  have hsubF : ∀ x ∈ closedMask deps (Mask.erase p.final c), x ∈ p.final :=
+    closedMask_least hp.closedF (fun y hy => ((mem_erase _ _ _).mp hy).1)
+  have haok : MaskOk (closedMask deps (Mask.erase p.final c)) := maskOk_closedMask deps (maskOk_erase hfok c)
+  by_cases hca : c ∈ closedMask deps (Mask.erase p.final c)
+  · -- the closure puts the component back
+    have heq : closedMask deps (Mask.erase p.final c) = p.final := by
+      apply sorted_ext haok hfok
+      intro x
+      constructor
+      · exact hsubF x
+      · intro hx
+        by_cases hxc : x = c
+        · rw [hxc]; exact hca
+        · exact subset_closedMask ((mem_erase _ _ _).mpr ⟨hx, hxc⟩)
+    have hpst : pst deps p (.remove e c) = p := by
+      simp only [pst, halive, Bool.false_eq_true, if_false, hcc, if_true, (contains_iff _ _).mpr hca]
+    have hdo : S.doRemove info k c = (S, []) := by
+      simp only [WS.doRemove, hal, hcs, hcc, Bool.not_true, Bool.false_eq_true, if_false, hdeps]
+      have : (closed deps (Mask.erase p.final c) == p.final) = true := by
+        have : closed deps (Mask.erase p.final c) = p.final := heq
+        simp [this]
+      simp only [this, if_true]
+    rw [hdo, hpst, List.append_nil]
+    exact ⟨ent, hal, rfl, hp, FrameK.refl S k, rfl⟩
+  · have hne : (closed deps (Mask.erase p.final c) == p.final) = false := by
+      have : closed deps (Mask.erase p.final c) ≠ p.final := by
+        intro h
+        apply hca
+        have : closedMask deps (Mask.erase p.final c) = p.final := h
+        rw [this]; exact hc
+      simpa using this
+    have hpst : pst deps p (.remove e c) =
+        { p with final := closedMask deps (Mask.erase p.final c), replaced := Mask.insert p.replaced c,
+                 src := p.src.filter (·.1 != c) } := by
+      simp only [pst, halive, Bool.false_eq_true, if_false, hcc, if_true, contains_false_iff.mpr hca]
+    have hdo : S.doRemove info k c =
+        (S.setEnt k (some { ent with comps :=
+            (rebuild info (ent.comps.filter (·.1 != c)) (closedMask deps (Mask.erase p.final c)) []) }),
+          cbDiff info k p.final (closedMask deps (Mask.erase p.final c))) := by
+      simp only [WS.doRemove, hal, hcs, hcc, Bool.not_true, Bool.false_eq_true, if_false, hdeps, hne]
+      rfl
+    rw [hdo, hpst]
+    refine ⟨_, setEnt_alive_self S hk _, rfl, ?_, frameK_setEnt S k _, rfl⟩
+    refine
+    { comps := ?_, sorted := haok, closedF := closedMask_closed hdb _, srcSub := ?_, srcNodup := ?_, gone := ?_, net := ?_
+      repl := ?_, nocb := ?_, other := ?_, alive := halive
+      srcRepl := by
+        intro q hq
+        rcases hp.srcRepl q (List.mem_filter.mp hq).1 with h1 | h1
+        · exact Or.inl ((mem_insert _ _ _).mpr (Or.inr h1))
+        · exact Or.inr h1 }
+    · show rebuild info (ent.comps.filter (·.1 != c)) _ [] = _
+      rw [rebuild_eq]
+      apply List.map_congr_left
+      intro x hx
+      have hxf := hsubF x hx
+      have hxc : x ≠ c := fun e' => hca (e' ▸ hx)
+      unfold specPair
+      rw [find_filter_ne' _ _ hxc, hp.comps, find_map_key, if_pos hxf]
+      simp only
+      rw [pform_remove_ne info ic p
+        { p with final := closedMask deps (Mask.erase p.final c), replaced := Mask.insert p.replaced c,
+                 src := p.src.filter (·.1 != c) } c hxc rfl (contains_insert_ne _ _ hxc)]
+    · intro q hq
+      have h1 := List.mem_filter.mp hq
+      have hne : q.1 ≠ c := by simpa using h1.2
+      exact subset_closedMask ((mem_erase _ _ _).mpr ⟨hp.srcSub q h1.1, hne⟩)
+    · exact hp.srcNodup.sublist (List.Sublist.map _ List.filter_sublist)
+    · intro q hq hnf
+      by_cases hqf : q.1 ∈ p.final
+      · have : q.1 = c := by
+          apply Classical.byContradiction
+          intro hne
+          exact hnf (subset_closedMask ((mem_erase _ _ _).mpr ⟨hqf, hne⟩))
+        exact (mem_insert _ _ _).mpr (Or.inl this)
+      · exact (mem_insert _ _ _).mpr (Or.inr (hp.gone q hq hqf))
+    · intro x hx
+      rw [List.count_append, List.count_append, count_cbDiff_assign info k _ _ (maskOk_nodup haok),
+        count_cbDiff_remove info k _ _ (maskOk_nodup hfok)]
+      have := hp.net x hx
+      have hA : (if k = k ∧ x ∈ closedMask deps (Mask.erase p.final c) ∧ (info x).callbacks = true ∧ x ∉ p.final
+          then 1 else 0) = (0 : Nat) := if_neg (fun h => h.2.2.2 (hsubF x h.2.1))
+      rw [hA]
+      by_cases hxa : x ∈ closedMask deps (Mask.erase p.final c)
+      · have hxf := hsubF x hxa
+        have hR : (if k = k ∧ x ∈ p.final ∧ (info x).callbacks = true ∧ x ∉ closedMask deps (Mask.erase p.final c)
+            then 1 else 0) = (0 : Nat) := if_neg (fun h => h.2.2.2 hxa)
+        rw [hR, if_pos hxa]
+        rw [if_pos hxf] at this
+        omega
+      · by_cases hxf : x ∈ p.final
+        · have hR : (if k = k ∧ x ∈ p.final ∧ (info x).callbacks = true ∧ x ∉ closedMask deps (Mask.erase p.final c)
+              then 1 else 0) = (1 : Nat) := if_pos ⟨rfl, hxf, hx, hxa⟩
+          rw [hR, if_neg hxa]
+          rw [if_pos hxf] at this
+          omega
+        · have hR : (if k = k ∧ x ∈ p.final ∧ (info x).callbacks = true ∧ x ∉ closedMask deps (Mask.erase p.final c)
+              then 1 else 0) = (0 : Nat) := if_neg (fun h => hxf h.2.1)
+          rw [hR, if_neg hxa]
+          rw [if_neg hxf] at this
+          omega
+    · intro x hx hcb
+      rw [List.count_append]
+      rcases (mem_insert _ _ _).mp hx with rfl | h
+      · rw [count_cbDiff_remove info k _ _ (maskOk_nodup hfok), if_pos ⟨rfl, hc, hcb, hca⟩]
+        omega
+      · have := hp.repl x h hcb; omega
+    · intro b x o hcb
+      rw [List.count_append, hp.nocb b x o hcb]
+      cases b with
+      | true => rw [count_cbDiff_assign info k _ _ (maskOk_nodup haok)]; simp [hcb]
+      | false => rw [count_cbDiff_remove info k _ _ (maskOk_nodup hfok)]; simp [hcb]
+    · intro b x o ho
+      rw [List.count_append, hp.other b x o ho]
+      cases b with
+      | true => rw [count_cbDiff_assign info k _ _ (maskOk_nodup haok)]; simp [ho]
+      | false => rw [count_cbDiff_remove info k _ _ (maskOk_nodup hfok)]; simp [ho]
 
 end Mustache.Proofs.Refine
